@@ -47,6 +47,10 @@ class KNone(Kind):
     pass
 
 
+class KComplex(Kind):
+    """complex number as (re, im) reals; used by the back-pointer idiom  i + j*1j  of the DTW code"""
+
+
 class KAny(Kind):
     """A value the verified code only stores and passes on (user ids: ints or strings): an opaque code."""
 
@@ -114,6 +118,7 @@ class KFunc(Kind):
 
 INT, BOOL, FLOAT, REAL, STR, NONE, FUNC = KInt(), KBool(), KFloat(), KReal(), KStr(), KNone(), KFunc()
 ANY = KAny()
+COMPLEX = KComplex()
 
 
 def flat(kind):
@@ -127,6 +132,8 @@ def flat(kind):
         return [B, R]
     if isinstance(kind, KReal):
         return [R]
+    if isinstance(kind, KComplex):
+        return [R, R]
     if isinstance(kind, KNone):
         return []
     if isinstance(kind, KTuple):
@@ -157,7 +164,7 @@ def parse_kind(s):
     """
     s = s.strip()
     base = {"int": INT, "bool": BOOL, "float": FLOAT, "real": REAL, "str": STR, "none": NONE,
-            "func": FUNC, "any": ANY}
+            "func": FUNC, "any": ANY, "complex": COMPLEX}
     if s in base:
         return base[s]
     if "[" in s:
